@@ -1,9 +1,1102 @@
-//! C01 — (stub; not built yet)
+//! C01 — every partitioner gives every element a part id below the requested count,
+//! without panicking (overflow checks + debug assertions are ON in this build) and without hanging,
+//! for every rayon pool size.
+//!
+//! All twelve partition-creating algorithms are driven through the PUBLIC API (`coupe::Partition`,
+//! `coupe::Grid::rcb`, and – for `coupe::Random`, which needs a `rand::Rng` – the CLI's own
+//! constructor `coupe_tools::parse_algorithm("random,<k>,<seed>")`).
+//!
+//! op (one line; `<Ts>` = comma separated rayon pool sizes the case is run under, `<wt>` = `i`
+//! (weights are decimal `i64`) or `f` (weights are `f64` bit patterns in hex); coordinates are
+//! `f64` bit patterns in hex, point-major: `x0 y0 [z0] x1 y1 [z1] …`):
+//!
+//! ```text
+//! rcb2|rcb3|rib2|rib3 <Ts> <iter_count> <tol bits> <wt> <n> <coords…> <weights…>
+//! hilbert2|hilbert3   <Ts> <part_count> <order> <n> <coords…> <weights f64 bits…>
+//! zcurve2|zcurve3     <Ts> <part_count> <order> <n> <coords…>
+//! mj2|mj3             <Ts> <part_count> <max_iter> <n> <coords…> <weights f64 bits…>
+//! greedy              <Ts> <part_count> <wt> <n> <weights…>
+//! kk                  <Ts> <part_count> <n> <weights i64…>
+//! ckk                 <Ts> <tol bits> <n> <weights i64…>
+//! grid2               <Ts> <w> <h> <iter_count> <wt> <weights w*h…>
+//! grid3               <Ts> <w> <h> <d> <iter_count> <wt> <weights w*h*d…>
+//! random              <Ts> <part_count> <n> <seed>
+//! ```
+//! an optional last token `m=<len>` gives the id array a length different from `n` (malformed
+//! stream, only for the algorithms that validate lengths).
+//!
+//! out: `ok` (every pool size: returned `Ok`, every element written, every id < parts)
+//!    | `notfound` (Ckk only: legitimate, nothing is claimed about the array)
+//!    | `rejected <why>` (input outside the contract refused: `lenmismatch`, `invalidorder`, `order-assert`)
+//!    | `bad-ids …` | `err …` | `panic file:line: msg` | `hang`
+//!    | `mixed <T>:<verdict> …` when pool sizes disagree.
+//!
+//! Oracle (independent of any model): for every pool size – no panic, no watchdog expiry, `Ok`
+//! (or `NotFound` for Ckk), no `usize::MAX` left of the pre-filled array, every id < parts, with
+//! parts = 2^iter_count for Rcb/Rib/Grid, 2 for Ckk, part_count otherwise.
 
 use crate::common::*;
+use coupe::rayon::prelude::*;
+use coupe::Partition as _;
+use std::collections::HashMap;
+use std::sync::Mutex;
 
-pub fn generate(_ctx: &mut Ctx) {}
+const HANG_SECS: u64 = 20;
+/// after this many watchdog expiries of one algorithm the remaining runs of it are not started
+/// (every hang leaves a spinning thread behind)
+const HANG_LIMIT: u32 = 4;
+
+static HANGS: Mutex<Option<HashMap<String, u32>>> = Mutex::new(None);
+
+fn hang_count(algo: &str) -> u32 {
+    HANGS.lock().ok().and_then(|g| g.as_ref().and_then(|m| m.get(algo).copied())).unwrap_or(0)
+}
+
+fn hang_bump(algo: &str) {
+    if let Ok(mut g) = HANGS.lock() {
+        *g.get_or_insert_with(HashMap::new).entry(algo.to_string()).or_insert(0) += 1;
+    }
+}
+
+// ------------------------------------------------------------------ cases
+
+#[derive(Clone, Debug)]
+enum Wts {
+    I(Vec<i64>),
+    F(Vec<f64>),
+}
+
+impl Wts {
+    fn len(&self) -> usize {
+        match self {
+            Wts::I(v) => v.len(),
+            Wts::F(v) => v.len(),
+        }
+    }
+    fn tag(&self) -> &'static str {
+        match self {
+            Wts::I(_) => "i",
+            Wts::F(_) => "f",
+        }
+    }
+    fn fmt(&self) -> String {
+        match self {
+            Wts::I(v) => join(v),
+            Wts::F(v) => hexes(v),
+        }
+    }
+    /// finite, non-negative, positive total unless empty
+    fn in_contract(&self) -> bool {
+        match self {
+            Wts::I(v) => v.iter().all(|&w| w >= 0) && (v.is_empty() || v.iter().any(|&w| w > 0)),
+            Wts::F(v) => {
+                v.iter().all(|&w| w.is_finite() && w >= 0.0) && (v.is_empty() || v.iter().any(|&w| w > 0.0))
+            }
+        }
+    }
+}
+
+#[derive(Clone, Debug)]
+enum Case {
+    /// Rcb / Rib
+    Bisect { rib: bool, dim: usize, iter: usize, tol: f64, pts: Vec<f64>, w: Wts },
+    Hilbert { dim: usize, parts: usize, order: u32, pts: Vec<f64>, w: Vec<f64> },
+    ZCurve { dim: usize, parts: usize, order: u32, pts: Vec<f64> },
+    Mj { dim: usize, parts: usize, max_iter: usize, pts: Vec<f64>, w: Vec<f64> },
+    Greedy { parts: usize, w: Wts },
+    Kk { parts: usize, w: Vec<i64> },
+    Ckk { tol: f64, w: Vec<i64> },
+    Grid { dims: Vec<usize>, iter: usize, w: Wts },
+    Random { parts: usize, n: usize, seed: u64 },
+}
+
+fn hexes(v: &[f64]) -> String {
+    let mut s = String::with_capacity(v.len() * 17);
+    for (i, x) in v.iter().enumerate() {
+        if i > 0 {
+            s.push(' ');
+        }
+        s.push_str(&format!("{:x}", x.to_bits()));
+    }
+    s
+}
+
+impl Case {
+    fn algo(&self) -> String {
+        match self {
+            Case::Bisect { rib, dim, .. } => format!("{}{}", if *rib { "rib" } else { "rcb" }, dim),
+            Case::Hilbert { dim, .. } => format!("hilbert{}", dim),
+            Case::ZCurve { dim, .. } => format!("zcurve{}", dim),
+            Case::Mj { dim, .. } => format!("mj{}", dim),
+            Case::Greedy { .. } => "greedy".into(),
+            Case::Kk { .. } => "kk".into(),
+            Case::Ckk { .. } => "ckk".into(),
+            Case::Grid { dims, .. } => format!("grid{}", dims.len()),
+            Case::Random { .. } => "random".into(),
+        }
+    }
+
+    /// number of elements
+    fn n(&self) -> usize {
+        match self {
+            Case::Bisect { dim, pts, .. }
+            | Case::Hilbert { dim, pts, .. }
+            | Case::ZCurve { dim, pts, .. }
+            | Case::Mj { dim, pts, .. } => pts.len() / dim,
+            Case::Greedy { w, .. } => w.len(),
+            Case::Kk { w, .. } | Case::Ckk { w, .. } => w.len(),
+            Case::Grid { dims, .. } => dims.iter().product(),
+            Case::Random { n, .. } => *n,
+        }
+    }
+
+    /// the bound the property names: ids must be below this
+    fn parts(&self) -> usize {
+        match self {
+            Case::Bisect { iter, .. } | Case::Grid { iter, .. } => 1usize << (*iter).min(40),
+            Case::Ckk { .. } => 2,
+            Case::Hilbert { parts, .. }
+            | Case::ZCurve { parts, .. }
+            | Case::Mj { parts, .. }
+            | Case::Greedy { parts, .. }
+            | Case::Kk { parts, .. }
+            | Case::Random { parts, .. } => *parts,
+        }
+    }
+
+    /// `<algo> <Ts> …`
+    fn format(&self, ts: &[usize], m: Option<usize>) -> String {
+        let ts = ts.iter().map(|t| t.to_string()).collect::<Vec<_>>().join(",");
+        let body = match self {
+            Case::Bisect { iter, tol, pts, w, .. } => {
+                format!("{} {:x} {} {} {} {}", iter, tol.to_bits(), w.tag(), self.n(), hexes(pts), w.fmt())
+            }
+            Case::Hilbert { parts, order, pts, w, .. } => {
+                format!("{} {} {} {} {}", parts, order, self.n(), hexes(pts), hexes(w))
+            }
+            Case::ZCurve { parts, order, pts, .. } => format!("{} {} {} {}", parts, order, self.n(), hexes(pts)),
+            Case::Mj { parts, max_iter, pts, w, .. } => {
+                format!("{} {} {} {} {}", parts, max_iter, self.n(), hexes(pts), hexes(w))
+            }
+            Case::Greedy { parts, w } => format!("{} {} {} {}", parts, w.tag(), w.len(), w.fmt()),
+            Case::Kk { parts, w } => format!("{} {} {}", parts, w.len(), join(w)),
+            Case::Ckk { tol, w } => format!("{:x} {} {}", tol.to_bits(), w.len(), join(w)),
+            Case::Grid { dims, iter, w } => format!("{} {} {} {}", join(dims), iter, w.tag(), w.fmt()),
+            Case::Random { parts, n, seed } => format!("{} {} {}", parts, n, seed),
+        };
+        let mut s = format!("{} {} {}", self.algo(), ts, body);
+        if let Some(m) = m {
+            s.push_str(&format!(" m={}", m));
+        }
+        s.split_whitespace().collect::<Vec<_>>().join(" ")
+    }
+
+    /// `None` when inside the usage contract, else the reason. (`m` = length of the id array.)
+    fn out_of_contract(&self, m: usize) -> Option<&'static str> {
+        if m != self.n() {
+            return Some("lenmismatch");
+        }
+        let finite = |pts: &Vec<f64>, as_f32: bool| {
+            pts.iter().all(|x| x.is_finite() && (!as_f32 || (*x as f32).is_finite()))
+        };
+        match self {
+            Case::Bisect { tol, pts, w, iter, .. } => {
+                if !finite(pts, true) || !w.in_contract() || !tol.is_finite() || *iter > 40 {
+                    return Some("contract");
+                }
+            }
+            Case::Hilbert { dim, parts, order, pts, w } => {
+                if *order > if *dim == 2 { 32 } else { 21 } {
+                    return Some("invalidorder");
+                }
+                if !finite(pts, false) || !Wts::F(w.clone()).in_contract() || *parts == 0 {
+                    return Some("contract");
+                }
+            }
+            Case::ZCurve { dim, parts, order, pts } => {
+                // z_curve.rs: max_order = log_{2^D}(u128::MAX)
+                if *order > if *dim == 2 { 64 } else { 42 } {
+                    return Some("order-assert");
+                }
+                if !finite(pts, false) || *parts == 0 {
+                    return Some("contract");
+                }
+            }
+            Case::Mj { parts, max_iter, pts, w, .. } => {
+                if !finite(pts, false) || !Wts::F(w.clone()).in_contract() || *parts == 0 {
+                    return Some("contract");
+                }
+                // zero iterations cannot produce more than one part (the scheme's root is
+                // part_count^(1/max_iter)); the CLI and the C API pass max_iter >= 1
+                if *max_iter == 0 {
+                    return Some("contract");
+                }
+            }
+            Case::Greedy { parts, w } => {
+                if !w.in_contract() || *parts == 0 {
+                    return Some("contract");
+                }
+            }
+            Case::Kk { parts, w } => {
+                if !Wts::I(w.clone()).in_contract() || *parts == 0 {
+                    return Some("contract");
+                }
+            }
+            Case::Ckk { tol, w } => {
+                if !Wts::I(w.clone()).in_contract() || !tol.is_finite() || *tol < 0.0 {
+                    return Some("contract");
+                }
+            }
+            Case::Grid { w, iter, .. } => {
+                if !w.in_contract() || *iter > 40 {
+                    return Some("contract");
+                }
+            }
+            Case::Random { parts, .. } => {
+                if *parts == 0 {
+                    return Some("contract");
+                }
+            }
+        }
+        None
+    }
+}
+
+// ------------------------------------------------------------------ parsing
+
+struct Tok<'a>(std::iter::Peekable<std::str::SplitWhitespace<'a>>);
+
+impl<'a> Tok<'a> {
+    fn word(&mut self) -> Option<&'a str> {
+        self.0.next()
+    }
+    fn usize(&mut self) -> Option<usize> {
+        self.word()?.parse().ok()
+    }
+    fn u32(&mut self) -> Option<u32> {
+        self.word()?.parse().ok()
+    }
+    fn f64(&mut self) -> Option<f64> {
+        Some(f64::from_bits(u64::from_str_radix(self.word()?, 16).ok()?))
+    }
+    fn f64s(&mut self, n: usize) -> Option<Vec<f64>> {
+        let mut v = Vec::with_capacity(n.min(1 << 20));
+        for _ in 0..n {
+            v.push(self.f64()?);
+        }
+        Some(v)
+    }
+    fn i64s(&mut self, n: usize) -> Option<Vec<i64>> {
+        let mut v = Vec::with_capacity(n.min(1 << 20));
+        for _ in 0..n {
+            v.push(self.word()?.parse().ok()?);
+        }
+        Some(v)
+    }
+    fn wts(&mut self, tag: &str, n: usize) -> Option<Wts> {
+        match tag {
+            "i" => Some(Wts::I(self.i64s(n)?)),
+            "f" => Some(Wts::F(self.f64s(n)?)),
+            _ => None,
+        }
+    }
+}
+
+/// → (case, pool sizes, length of the id array)
+fn parse_op(op: &str) -> Option<(Case, Vec<usize>, usize)> {
+    let mut t = Tok(op.split_whitespace().peekable());
+    let algo = t.word()?;
+    let ts: Vec<usize> = t.word()?.split(',').map(|x| x.parse().ok()).collect::<Option<_>>()?;
+    if ts.is_empty() || ts.iter().any(|&x| x == 0 || x > 64) {
+        return None;
+    }
+    let (name, dim) = match algo {
+        "rcb2" | "rib2" | "hilbert2" | "zcurve2" | "mj2" | "grid2" => (&algo[..algo.len() - 1], 2usize),
+        "rcb3" | "rib3" | "hilbert3" | "zcurve3" | "mj3" | "grid3" => (&algo[..algo.len() - 1], 3usize),
+        _ => (algo, 0usize),
+    };
+    let case = match name {
+        "rcb" | "rib" => {
+            let iter = t.usize()?;
+            let tol = t.f64()?;
+            let tag = t.word()?;
+            let n = t.usize()?;
+            let pts = t.f64s(n.checked_mul(dim)?)?;
+            let w = t.wts(tag, n)?;
+            Case::Bisect { rib: name == "rib", dim, iter, tol, pts, w }
+        }
+        "hilbert" => {
+            let parts = t.usize()?;
+            let order = t.u32()?;
+            let n = t.usize()?;
+            let pts = t.f64s(n.checked_mul(dim)?)?;
+            let w = t.f64s(n)?;
+            Case::Hilbert { dim, parts, order, pts, w }
+        }
+        "zcurve" => {
+            let parts = t.usize()?;
+            let order = t.u32()?;
+            let n = t.usize()?;
+            let pts = t.f64s(n.checked_mul(dim)?)?;
+            Case::ZCurve { dim, parts, order, pts }
+        }
+        "mj" => {
+            let parts = t.usize()?;
+            let max_iter = t.usize()?;
+            let n = t.usize()?;
+            let pts = t.f64s(n.checked_mul(dim)?)?;
+            let w = t.f64s(n)?;
+            Case::Mj { dim, parts, max_iter, pts, w }
+        }
+        "greedy" => {
+            let parts = t.usize()?;
+            let tag = t.word()?;
+            let n = t.usize()?;
+            let w = t.wts(tag, n)?;
+            Case::Greedy { parts, w }
+        }
+        "kk" => {
+            let parts = t.usize()?;
+            let n = t.usize()?;
+            Case::Kk { parts, w: t.i64s(n)? }
+        }
+        "ckk" => {
+            let tol = t.f64()?;
+            let n = t.usize()?;
+            Case::Ckk { tol, w: t.i64s(n)? }
+        }
+        "grid" => {
+            let mut dims = Vec::new();
+            for _ in 0..dim {
+                let d = t.usize()?;
+                if d == 0 || d > 1 << 20 {
+                    return None;
+                }
+                dims.push(d);
+            }
+            let iter = t.usize()?;
+            let tag = t.word()?;
+            let n = dims.iter().try_fold(1usize, |a, &d| a.checked_mul(d))?;
+            if n > 1 << 24 {
+                return None;
+            }
+            let w = t.wts(tag, n)?;
+            Case::Grid { dims, iter, w }
+        }
+        "random" => {
+            let parts = t.usize()?;
+            let n = t.usize()?;
+            let seed = t.word()?.parse().ok()?;
+            Case::Random { parts, n, seed }
+        }
+        _ => return None,
+    };
+    let mut m = case.n();
+    if let Some(tok) = t.word() {
+        m = tok.strip_prefix("m=")?.parse().ok()?;
+        // a different array length only where the algorithm validates it (the others write
+        // through raw pointers and trust the caller)
+        match case {
+            Case::Bisect { .. } | Case::Greedy { .. } | Case::Kk { .. } | Case::Ckk { .. } => {}
+            _ => return None,
+        }
+    }
+    if t.word().is_some() || m > 1 << 24 {
+        return None;
+    }
+    Some((case, ts, m))
+}
+
+// ------------------------------------------------------------------ running the implementation
+
+/// What one call returned (when it returned).
+#[derive(Clone, Debug, PartialEq)]
+enum Ret {
+    Ok,
+    NotFound,
+    LenMismatch,
+    InvalidOrder,
+    Other(String),
+}
+
+fn map_err(e: coupe::Error) -> Ret {
+    match e {
+        coupe::Error::NotFound => Ret::NotFound,
+        coupe::Error::InputLenMismatch { .. } => Ret::LenMismatch,
+        e => Ret::Other(format!("{:?}", e)),
+    }
+}
+
+fn to_ret(r: Result<(), coupe::Error>) -> Ret {
+    match r {
+        Ok(()) => Ret::Ok,
+        Err(e) => map_err(e),
+    }
+}
+
+macro_rules! points {
+    ($D:literal, $pts:expr) => {
+        $pts.chunks($D).map(|c| coupe::PointND::<$D>::from_column_slice(c)).collect::<Vec<coupe::PointND<$D>>>()
+    };
+}
+
+macro_rules! bisect {
+    ($D:literal, $ids:expr, $rib:expr, $iter:expr, $tol:expr, $pts:expr, $w:expr) => {{
+        let p = points!($D, $pts);
+        match ($rib, $w) {
+            (false, Wts::I(w)) => to_ret(
+                coupe::Rcb { iter_count: $iter, tolerance: $tol }.partition($ids, (p.par_iter().cloned(), w)),
+            ),
+            (false, Wts::F(w)) => to_ret(
+                coupe::Rcb { iter_count: $iter, tolerance: $tol }.partition($ids, (p.par_iter().cloned(), w)),
+            ),
+            (true, Wts::I(w)) => {
+                to_ret(coupe::Rib { iter_count: $iter, tolerance: $tol }.partition($ids, (&p[..], w)))
+            }
+            (true, Wts::F(w)) => {
+                to_ret(coupe::Rib { iter_count: $iter, tolerance: $tol }.partition($ids, (&p[..], w)))
+            }
+        }
+    }};
+}
+
+/// One call of the real implementation on a fresh id array of length `m` pre-filled with
+/// `usize::MAX` (runs inside the pool / watchdog of the caller).
+fn call(case: Case, m: usize) -> (Ret, Vec<usize>) {
+    let mut ids = vec![usize::MAX; m];
+    let ret = match case {
+        Case::Bisect { rib, dim: 2, iter, tol, pts, w } => bisect!(2, &mut ids, rib, iter, tol, pts, w),
+        Case::Bisect { rib, iter, tol, pts, w, .. } => bisect!(3, &mut ids, rib, iter, tol, pts, w),
+        Case::Hilbert { dim, parts, order, pts, w } => {
+            let mut algo = coupe::HilbertCurve { part_count: parts, order };
+            let r = if dim == 2 {
+                let p = points!(2, pts);
+                algo.partition(&mut ids, (&p[..], &w[..]))
+            } else {
+                let p = points!(3, pts);
+                algo.partition(&mut ids, (&p[..], &w[..]))
+            };
+            match r {
+                Ok(()) => Ret::Ok,
+                Err(coupe::HilbertCurveError::InvalidOrder { .. }) => Ret::InvalidOrder,
+                #[allow(unreachable_patterns)]
+                Err(e) => Ret::Other(format!("{:?}", e)),
+            }
+        }
+        Case::ZCurve { dim, parts, order, pts } => {
+            let mut algo = coupe::ZCurve { part_count: parts, order };
+            if dim == 2 {
+                let p = points!(2, pts);
+                algo.partition(&mut ids, &p[..]).unwrap();
+            } else {
+                let p = points!(3, pts);
+                algo.partition(&mut ids, &p[..]).unwrap();
+            }
+            Ret::Ok
+        }
+        Case::Mj { dim, parts, max_iter, pts, w } => {
+            let mut algo = coupe::MultiJagged { part_count: parts, max_iter };
+            if dim == 2 {
+                let p = points!(2, pts);
+                algo.partition(&mut ids, (&p[..], &w[..])).unwrap();
+            } else {
+                let p = points!(3, pts);
+                algo.partition(&mut ids, (&p[..], &w[..])).unwrap();
+            }
+            Ret::Ok
+        }
+        Case::Greedy { parts, w } => match w {
+            Wts::I(w) => to_ret(coupe::Greedy { part_count: parts }.partition(&mut ids, w)),
+            Wts::F(w) => to_ret(coupe::Greedy { part_count: parts }.partition(&mut ids, w)),
+        },
+        Case::Kk { parts, w } => to_ret(coupe::KarmarkarKarp { part_count: parts }.partition(&mut ids, w)),
+        Case::Ckk { tol, w } => to_ret(coupe::CompleteKarmarkarKarp { tolerance: tol }.partition(&mut ids, w)),
+        Case::Grid { dims, iter, w } => {
+            let nz = |x: usize| std::num::NonZeroUsize::new(x).unwrap();
+            if dims.len() == 2 {
+                let g = coupe::Grid::new_2d(nz(dims[0]), nz(dims[1]));
+                match w {
+                    Wts::I(w) => g.rcb(&mut ids, &w[..], iter),
+                    Wts::F(w) => g.rcb(&mut ids, &w[..], iter),
+                }
+            } else {
+                let g = coupe::Grid::new_3d(nz(dims[0]), nz(dims[1]), nz(dims[2]));
+                match w {
+                    Wts::I(w) => g.rcb(&mut ids, &w[..], iter),
+                    Wts::F(w) => g.rcb(&mut ids, &w[..], iter),
+                }
+            }
+            Ret::Ok
+        }
+        Case::Random { parts, seed, .. } => {
+            // `coupe::Random` needs a `rand::Rng`; the `rand` crate is not re-exported by coupe,
+            // so the generator comes from the CLI's own constructor (Pcg64 seeded from the string).
+            match coupe_tools::parse_algorithm::<2>(&format!("random,{},{}", parts, seed)) {
+                Err(e) => Ret::Other(format!("parse_algorithm: {}", e)),
+                Ok(mut algo) => {
+                    let problem =
+                        coupe_tools::Problem::<2>::without_mesh(mesh_io::weight::Array::Integers(Vec::new()));
+                    let mut runner = algo.to_runner(&problem);
+                    match runner(&mut ids) {
+                        Ok(_) => Ret::Ok,
+                        Err(e) => Ret::Other(format!("{}", e)),
+                    }
+                }
+            }
+        }
+    };
+    (ret, ids)
+}
+
+/// verdict of one pool size: (canonical word(s), oracle failure)
+fn verdict(
+    case: &Case,
+    algo: &str,
+    t: usize,
+    m: usize,
+    ooc: Option<&'static str>,
+    res: Caught<(Ret, Vec<usize>)>,
+) -> (String, Option<(String, String)>) {
+    let parts = case.parts();
+    match res {
+        Caught::Hang => (
+            "hang".into(),
+            Some((format!("hang@{} T={}", algo, t), format!("no return within {} s on a {}-thread pool", HANG_SECS, t))),
+        ),
+        Caught::Panic(msg) => {
+            if ooc == Some("order-assert") && msg.contains("Cannot use the z-curve partition algorithm") {
+                return ("rejected order-assert".into(), None);
+            }
+            let sig = panic_sig(&msg);
+            let fail = if ooc.is_none() { Some((sig, format!("{} (T={})", msg, t))) } else { None };
+            (format!("panic {}", msg), fail)
+        }
+        Caught::Ok((ret, ids)) => match ret {
+            Ret::Ok => {
+                if let Some(why) = ooc {
+                    // outside the contract nothing is claimed; the line still shows what happened
+                    return (format!("accepted {}", why), None);
+                }
+                debug_assert_eq!(ids.len(), m);
+                if let Some(i) = ids.iter().position(|&x| x == usize::MAX) {
+                    return (
+                        "bad-ids unwritten".into(),
+                        Some((
+                            format!("unwritten@{}", algo),
+                            format!("element {} of {} still holds usize::MAX after Ok (T={})", i, m, t),
+                        )),
+                    );
+                }
+                if let Some(i) = ids.iter().position(|&x| x >= parts) {
+                    return (
+                        "bad-ids out-of-range".into(),
+                        Some((
+                            format!("id-out-of-range@{}", algo),
+                            format!("element {} got id {} but {} parts were asked for (T={})", i, ids[i], parts, t),
+                        )),
+                    );
+                }
+                ("ok".into(), None)
+            }
+            Ret::NotFound => {
+                if matches!(case, Case::Ckk { .. }) {
+                    ("notfound".into(), None)
+                } else {
+                    (
+                        "err notfound".into(),
+                        ooc.is_none().then(|| (format!("unexpected-error@{}", algo), format!("NotFound (T={})", t))),
+                    )
+                }
+            }
+            Ret::LenMismatch => {
+                if ooc == Some("lenmismatch") {
+                    let touched = ids.iter().any(|&x| x != usize::MAX);
+                    if touched {
+                        ("rejected lenmismatch after-writing".into(), None)
+                    } else {
+                        ("rejected lenmismatch".into(), None)
+                    }
+                } else {
+                    (
+                        "err lenmismatch".into(),
+                        ooc.is_none().then(|| {
+                            (format!("unexpected-error@{}", algo), format!("InputLenMismatch on matching lengths (T={})", t))
+                        }),
+                    )
+                }
+            }
+            Ret::InvalidOrder => {
+                if ooc == Some("invalidorder") {
+                    ("rejected invalidorder".into(), None)
+                } else {
+                    (
+                        "err invalidorder".into(),
+                        ooc.is_none().then(|| {
+                            (format!("unexpected-error@{}", algo), format!("InvalidOrder on an order within the maximum (T={})", t))
+                        }),
+                    )
+                }
+            }
+            Ret::Other(e) => (
+                format!("err {}", e),
+                ooc.is_none().then(|| (format!("unexpected-error@{}", algo), format!("{} (T={})", e, t))),
+            ),
+        },
+    }
+}
 
 pub fn run_op(ctx: &mut Ctx, op: &str) {
-    ctx.record(op.to_string(), "bad-op".into(), false);
+    let Some((case, ts, m)) = parse_op(op) else {
+        ctx.record(op.to_string(), "bad-op".into(), false);
+        return;
+    };
+    let algo = case.algo();
+    let ooc = case.out_of_contract(m);
+    let n = case.n();
+    let parts = case.parts();
+    let mut verdicts: Vec<(usize, String)> = Vec::with_capacity(ts.len());
+    let mut fails: Vec<(String, String)> = Vec::new();
+    for &t in &ts {
+        if hang_count(&algo) >= HANG_LIMIT {
+            verdicts.push((t, "not-run hang-limit".into()));
+            ctx.count("not_run_after_hangs");
+            continue;
+        }
+        let c = case.clone();
+        let res = catch_timeout(HANG_SECS, move || with_pool(t, move || call(c, m)));
+        if matches!(res, Caught::Hang) {
+            hang_bump(&algo);
+        }
+        ctx.count("pool_runs");
+        ctx.count(&format!("pool_size_{:02}", t));
+        let (v, f) = verdict(&case, &algo, t, m, ooc, res);
+        verdicts.push((t, v));
+        if let Some(f) = f {
+            fails.push(f);
+        }
+    }
+    let out = if verdicts.iter().all(|(_, v)| *v == verdicts[0].1) {
+        verdicts[0].1.clone()
+    } else {
+        let mut s = String::from("mixed");
+        for (t, v) in &verdicts {
+            s.push_str(&format!(" {}:{}", t, v));
+        }
+        s
+    };
+    ctx.count(&format!("algo_{}", algo));
+    ctx.count(&format!("out_{}", out.split(' ').next().unwrap_or("")));
+    if ooc.is_some() {
+        ctx.count("outside_contract");
+    }
+    if parts > n && n > 0 {
+        ctx.count("shape_parts_gt_n");
+    }
+    match n {
+        0 => ctx.count("shape_n0"),
+        1 => ctx.count("shape_n1"),
+        2 => ctx.count("shape_n2"),
+        x if x >= 4096 => ctx.count("shape_n_ge_4096"),
+        _ => {}
+    }
+    let nontrivial = ooc.is_none() && n >= 2 && parts >= 2;
+    let idx = ctx.record(op.to_string(), out, nontrivial);
+    // one failure per distinct signature per op
+    fails.dedup_by(|a, b| a.0 == b.0);
+    for (sig, what) in fails {
+        ctx.fail(idx, &sig, what);
+    }
+}
+
+// ------------------------------------------------------------------ generator
+
+const TOLS: [f64; 3] = [0.0, 0.05, 0.5];
+const POINT_MODES: [&str; 7] = ["uniform", "duplicates", "coincident", "collinear", "clustered", "lattice", "wide"];
+const WEIGHT_MODES: [&str; 6] = ["unit", "spread", "one-heavy", "zeros", "small", "heavy-tail"];
+
+fn frac(rng: &mut Rng, lo: i64, hi: i64) -> f64 {
+    // dyadic rationals: exact in f64 and (for this range) in f32
+    rng.range(lo * 64, hi * 64) as f64 / 64.0
+}
+
+/// `n` points of dimension `dim`, flattened. All finite, also after the `as f32` of Rcb.
+fn gen_points(rng: &mut Rng, dim: usize, n: usize, mode: &str) -> Vec<f64> {
+    let mut v = Vec::with_capacity(n * dim);
+    match mode {
+        "uniform" => {
+            for _ in 0..n * dim {
+                v.push(frac(rng, -1000, 1000));
+            }
+        }
+        "duplicates" => {
+            // few distinct sites, every site used several times
+            let sites = 1 + rng.usize((n / 4).max(1));
+            let pool: Vec<f64> = (0..sites * dim).map(|_| frac(rng, -50, 50)).collect();
+            for _ in 0..n {
+                let s = rng.usize(sites);
+                v.extend_from_slice(&pool[s * dim..(s + 1) * dim]);
+            }
+        }
+        "coincident" => {
+            let p: Vec<f64> = (0..dim).map(|_| frac(rng, -5, 5)).collect();
+            for _ in 0..n {
+                v.extend_from_slice(&p);
+            }
+        }
+        "collinear" => {
+            // axis-parallel, diagonal or general direction; sometimes with repeated abscissae
+            let kind = rng.usize(3);
+            let dir: Vec<f64> = match kind {
+                0 => {
+                    let a = rng.usize(dim);
+                    (0..dim).map(|i| if i == a { 1.0 } else { 0.0 }).collect()
+                }
+                1 => vec![1.0; dim],
+                _ => (0..dim).map(|_| rng.range(-4, 4) as f64).collect(),
+            };
+            let org: Vec<f64> = (0..dim).map(|_| frac(rng, -10, 10)).collect();
+            let rep = rng.chance(1, 3);
+            for _ in 0..n {
+                let t = if rep { rng.range(0, 6) as f64 } else { frac(rng, -100, 100) };
+                for i in 0..dim {
+                    v.push(org[i] + t * dir[i]);
+                }
+            }
+        }
+        "clustered" => {
+            let k = 1 + rng.usize(4);
+            let centres: Vec<f64> = (0..k * dim).map(|_| rng.range(-100_000, 100_000) as f64).collect();
+            for _ in 0..n {
+                let c = rng.usize(k);
+                for i in 0..dim {
+                    v.push(centres[c * dim + i] + rng.range(-512, 512) as f64 / 1_048_576.0);
+                }
+            }
+        }
+        "lattice" => {
+            // integer lattice: many equal coordinates on every axis
+            let side = 1 + rng.range(1, 6);
+            for _ in 0..n * dim {
+                v.push(rng.range(0, side) as f64);
+            }
+        }
+        _ => {
+            // "wide": magnitudes from 2^-20 to 2^30, both signs, a few exact zeros
+            for _ in 0..n * dim {
+                let e = rng.range(-20, 30) as i32;
+                let mant = rng.range(-1024, 1024) as f64 / 1024.0;
+                v.push(mant * 2f64.powi(e));
+            }
+        }
+    }
+    v
+}
+
+/// `n` integer weights ≥ 0 with positive total (when n > 0).
+fn gen_weights(rng: &mut Rng, n: usize, mode: &str) -> Vec<i64> {
+    let mut w: Vec<i64> = match mode {
+        "unit" => vec![1; n],
+        "spread" => (0..n).map(|_| rng.range(1, 100)).collect(),
+        "one-heavy" => {
+            let mut w: Vec<i64> = (0..n).map(|_| rng.range(1, 3)).collect();
+            if n > 0 {
+                let k = rng.usize(n);
+                w[k] = 1000 * n as i64 + rng.range(0, 50);
+            }
+            w
+        }
+        "zeros" => (0..n).map(|_| if rng.chance(2, 3) { 0 } else { rng.range(1, 9) }).collect(),
+        "small" => (0..n).map(|_| rng.range(0, 4)).collect(),
+        _ => (0..n).map(|_| if rng.chance(1, 8) { rng.range(100, 10_000) } else { rng.range(0, 5) }).collect(),
+    };
+    if n > 0 && w.iter().all(|&x| x == 0) {
+        let k = rng.usize(n);
+        w[k] = rng.range(1, 9);
+    }
+    w
+}
+
+fn as_f(w: &[i64]) -> Vec<f64> {
+    w.iter().map(|&x| x as f64).collect()
+}
+
+fn wts(rng: &mut Rng, w: Vec<i64>) -> Wts {
+    if rng.chance(1, 2) {
+        Wts::I(w)
+    } else {
+        Wts::F(as_f(&w))
+    }
+}
+
+/// a size in 3..=max, skewed to the small end
+fn gen_n(rng: &mut Rng, max: usize) -> usize {
+    let r = rng.usize(100);
+    let hi = if r < 45 { 20 } else if r < 80 { 100 } else { max };
+    3 + rng.usize(hi.min(max).max(4) - 2)
+}
+
+/// a part count: small, around n, above n, or up to 65
+fn gen_parts(ctx: &mut Ctx, n: usize) -> usize {
+    match ctx.rng.usize(6) {
+        0 => 1 + ctx.rng.usize(2),
+        1 | 2 => 2 + ctx.rng.usize(8),
+        3 => n.saturating_sub(1).max(1) + ctx.rng.usize(3),
+        4 => n + 1 + ctx.rng.usize(n + 4),
+        _ => 1 + ctx.rng.usize(65),
+    }
+}
+
+fn emit(ctx: &mut Ctx, case: &Case, ts: &[usize]) {
+    let op = case.format(ts, None);
+    run_op(ctx, &op);
+}
+
+/// Every algorithm on one geometric / weight input.
+fn one_random_case(ctx: &mut Ctx, which: usize, n: usize, ts: &[usize]) {
+    let pm = *ctx.rng.pick(&POINT_MODES);
+    let wm = *ctx.rng.pick(&WEIGHT_MODES);
+    let dim = 2 + ctx.rng.usize(2);
+    let w = gen_weights(&mut ctx.rng, n, wm);
+    let case = match which {
+        0 | 1 => {
+            let pts = gen_points(&mut ctx.rng, dim, n, pm);
+            let iter = ctx.rng.usize(7);
+            let tol = *ctx.rng.pick(&TOLS);
+            let w = wts(&mut ctx.rng, w);
+            ctx.count(&format!("points_{}", pm));
+            ctx.count(&format!("weights_{}", wm));
+            ctx.count(&format!("iter_count_{}", iter));
+            ctx.count(&format!("wtype_{}", w.tag()));
+            Case::Bisect { rib: which == 1, dim, iter, tol, pts, w }
+        }
+        2 => {
+            let pts = gen_points(&mut ctx.rng, dim, n, pm);
+            let parts = gen_parts(ctx, n);
+            // orders 1..=32 (2-D) / 1..=21 (3-D); order 0 (a single cell) now and then
+            let max = if dim == 2 { 32 } else { 21 };
+            let order = match ctx.rng.usize(10) {
+                0 => 0,
+                1 => max,
+                2 => max - 1,
+                _ => 1 + ctx.rng.usize(max as usize) as u32,
+            };
+            ctx.count(&format!("points_{}", pm));
+            ctx.count(&format!("weights_{}", wm));
+            ctx.count(&format!("hilbert{}_order_{:02}", dim, order));
+            Case::Hilbert { dim, parts, order, pts, w: as_f(&w) }
+        }
+        3 => {
+            let pts = gen_points(&mut ctx.rng, dim, n, pm);
+            let parts = gen_parts(ctx, n);
+            // orders 0..=12 mostly; up to the assert's maximum now and then
+            let order = match ctx.rng.usize(12) {
+                0 => {
+                    if dim == 2 {
+                        64
+                    } else {
+                        42
+                    }
+                }
+                1 => 13 + ctx.rng.usize(20) as u32,
+                _ => ctx.rng.usize(13) as u32,
+            };
+            ctx.count(&format!("points_{}", pm));
+            ctx.count(&format!("zcurve_order_{}", if order <= 12 { format!("{:02}", order) } else { "13+".into() }));
+            Case::ZCurve { dim, parts, order, pts }
+        }
+        4 => {
+            let pts = gen_points(&mut ctx.rng, dim, n, pm);
+            let parts = gen_parts(ctx, n);
+            let max_iter = 1 + ctx.rng.usize(6);
+            ctx.count(&format!("points_{}", pm));
+            ctx.count(&format!("weights_{}", wm));
+            ctx.count(&format!("mj_max_iter_{}", max_iter));
+            Case::Mj { dim, parts, max_iter, pts, w: as_f(&w) }
+        }
+        5 => {
+            let parts = gen_parts(ctx, n);
+            let w = wts(&mut ctx.rng, w);
+            ctx.count(&format!("weights_{}", wm));
+            ctx.count(&format!("wtype_{}", w.tag()));
+            Case::Greedy { parts, w }
+        }
+        6 => {
+            let parts = gen_parts(ctx, n);
+            ctx.count(&format!("weights_{}", wm));
+            Case::Kk { parts, w }
+        }
+        7 => {
+            // the search is exponential in the worst case: short vectors
+            let n = n.min(3 + ctx.rng.usize(12));
+            let w = gen_weights(&mut ctx.rng, n, wm);
+            let tol = *ctx.rng.pick(&TOLS);
+            ctx.count(&format!("weights_{}", wm));
+            Case::Ckk { tol, w }
+        }
+        8 => {
+            // grid with about n cells
+            let iter = ctx.rng.usize(7);
+            let dims: Vec<usize> = if dim == 2 {
+                let a = 1 + ctx.rng.usize(((n as f64).sqrt() as usize * 2).max(1));
+                vec![a, (n / a).max(1)]
+            } else {
+                let s = ((n as f64).cbrt() as usize * 2).max(1);
+                let a = 1 + ctx.rng.usize(s);
+                let b = 1 + ctx.rng.usize(s);
+                vec![a, b, (n / (a * b)).max(1)]
+            };
+            let cells: usize = dims.iter().product();
+            let w = gen_weights(&mut ctx.rng, cells, wm);
+            let w = wts(&mut ctx.rng, w);
+            ctx.count(&format!("weights_{}", wm));
+            ctx.count(&format!("iter_count_{}", iter));
+            ctx.count(&format!("wtype_{}", w.tag()));
+            Case::Grid { dims, iter, w }
+        }
+        _ => {
+            let parts = gen_parts(ctx, n);
+            Case::Random { parts, n, seed: ctx.rng.below(1 << 40) }
+        }
+    };
+    emit(ctx, &case, ts);
+}
+
+/// The small sub-space, enumerated: n ∈ {0,1,2}, every algorithm and dimension, part counts
+/// 1..=4 (iteration counts 0..=2), coincident / distinct points, weights over {0,1,3} with a
+/// positive total, both weight types.
+fn corners(ctx: &mut Ctx, ts: &[usize]) {
+    let mut count = 0usize;
+    let weight_sets: [&[&[i64]]; 3] = [&[&[]], &[&[1], &[5]], &[&[1, 1], &[0, 1], &[3, 0], &[3, 1]]];
+    for n in 0..=2usize {
+        // point sets for n points: all coincident, or spread along one axis
+        let layouts: Vec<Vec<[f64; 3]>> = match n {
+            0 => vec![vec![]],
+            1 => vec![vec![[0.0, 0.0, 0.0]], vec![[-2.5, 7.0, 1.0]]],
+            _ => vec![
+                vec![[1.0, 1.0, 1.0], [1.0, 1.0, 1.0]],
+                vec![[0.0, 0.0, 0.0], [1.0, 0.0, 0.0]],
+                vec![[0.0, 5.0, 0.0], [0.0, -5.0, 0.0]],
+                vec![[3.0, 1.0, 2.0], [-1.0, 2.0, -2.0]],
+            ],
+        };
+        for ws in weight_sets[n] {
+            for layout in &layouts {
+                for dim in [2usize, 3] {
+                    let pts: Vec<f64> = layout.iter().flat_map(|p| p[..dim].to_vec()).collect();
+                    for parts in 1..=4usize {
+                        let iter = parts - 1; // 0..=3 → 1, 2, 4, 8 parts
+                        for f in [false, true] {
+                            let w = if f { Wts::F(as_f(ws)) } else { Wts::I(ws.to_vec()) };
+                            for rib in [false, true] {
+                                let c = Case::Bisect { rib, dim, iter, tol: TOLS[parts % 3], pts: pts.clone(), w: w.clone() };
+                                emit(ctx, &c, ts);
+                                count += 1;
+                            }
+                        }
+                        let order = [1u32, 4, 12, if dim == 2 { 32 } else { 21 }][parts - 1];
+                        emit(ctx, &Case::Hilbert { dim, parts, order, pts: pts.clone(), w: as_f(ws) }, ts);
+                        emit(ctx, &Case::ZCurve { dim, parts, order: order.min(12) - 1, pts: pts.clone() }, ts);
+                        emit(ctx, &Case::Mj { dim, parts, max_iter: 1 + parts % 3, pts: pts.clone(), w: as_f(ws) }, ts);
+                        count += 3;
+                    }
+                }
+            }
+            for parts in 1..=4usize {
+                emit(ctx, &Case::Greedy { parts, w: Wts::I(ws.to_vec()) }, ts);
+                emit(ctx, &Case::Greedy { parts, w: Wts::F(as_f(ws)) }, ts);
+                emit(ctx, &Case::Kk { parts, w: ws.to_vec() }, ts);
+                emit(ctx, &Case::Ckk { tol: TOLS[parts % 3], w: ws.to_vec() }, ts);
+                emit(ctx, &Case::Random { parts, n, seed: parts as u64 }, ts);
+                count += 5;
+                if n >= 1 {
+                    // grids of n cells in every orientation
+                    let shapes2: Vec<Vec<usize>> = if n == 1 { vec![vec![1, 1]] } else { vec![vec![2, 1], vec![1, 2]] };
+                    let shapes3: Vec<Vec<usize>> =
+                        if n == 1 { vec![vec![1, 1, 1]] } else { vec![vec![2, 1, 1], vec![1, 2, 1], vec![1, 1, 2]] };
+                    for dims in shapes2.into_iter().chain(shapes3) {
+                        emit(ctx, &Case::Grid { dims: dims.clone(), iter: parts - 1, w: Wts::I(ws.to_vec()) }, ts);
+                        emit(ctx, &Case::Grid { dims, iter: parts - 1, w: Wts::F(as_f(ws)) }, ts);
+                        count += 2;
+                    }
+                }
+            }
+        }
+    }
+    ctx.count_n("corner_cases", count as u64);
+    ctx.notes.push(format!(
+        "enumerated sub-space: n in 0..=2 x every algorithm/dimension x part counts 1..=4 (iteration counts 0..=3) x \
+         coincident/distinct layouts x weights over {{0,1,3,5}} with positive total x both weight types: {} cases, each under pool sizes {:?}",
+        count, ts
+    ));
+}
+
+trait CountN {
+    fn count_n(&mut self, key: &str, n: u64);
+}
+
+impl CountN for Ctx {
+    fn count_n(&mut self, key: &str, n: u64) {
+        *self.hist.entry(key.to_string()).or_insert(0) += n;
+    }
+}
+
+pub fn generate(ctx: &mut Ctx) {
+    let ts: Vec<usize> = if ctx.quick() { vec![1, 2, 3, 16] } else { (1..=16).collect() };
+    ctx.notes.push(format!(
+        "every case is run once per rayon pool size in {:?} on an id array pre-filled with usize::MAX, each run under a {} s watchdog; \
+         'evaluations' counts cases, 'pool_runs' in the distribution counts implementation runs",
+        ts, HANG_SECS
+    ));
+
+    // 1. the enumerated corners
+    corners(ctx, &ts);
+
+    // 2. random cases, every algorithm in turn (ten kinds)
+    let per_algo = ctx.budget(45, 250);
+    let max_n = 300;
+    for _ in 0..per_algo {
+        for which in 0..10 {
+            let n = gen_n(&mut ctx.rng, max_n);
+            one_random_case(ctx, which, n, &ts);
+        }
+    }
+
+    // 3. inputs large enough for rayon to split the parallel iterators (with_min_len(4096) in
+    //    the Rcb scan, par_sort, par_chunks …): the data-parallel algorithms only
+    for _ in 0..ctx.budget(2, 12) {
+        for which in [0usize, 1, 2, 3, 4, 8] {
+            let n = 4500 + ctx.rng.usize(5000);
+            ctx.count("large_cases");
+            one_random_case(ctx, which, n, &ts);
+        }
+    }
+
+    // 4. malformed stream (outside the contract; nothing claimed, but the refusal is recorded and
+    //    compared): array length ≠ element count, curve orders above the maximum
+    for _ in 0..ctx.budget(4, 30) {
+        let n = 1 + ctx.rng.usize(6);
+        let m = if ctx.rng.chance(1, 2) { n + 1 + ctx.rng.usize(3) } else { ctx.rng.usize(n) };
+        let dim = 2 + ctx.rng.usize(2);
+        let w = gen_weights(&mut ctx.rng, n, "small");
+        let pts = gen_points(&mut ctx.rng, dim, n, "uniform");
+        let one = [*ctx.rng.pick(&ts)];
+        let cases = [
+            Case::Bisect { rib: false, dim, iter: 2, tol: 0.05, pts: pts.clone(), w: Wts::I(w.clone()) },
+            Case::Bisect { rib: true, dim, iter: 2, tol: 0.05, pts: pts.clone(), w: Wts::F(as_f(&w)) },
+            Case::Greedy { parts: 3, w: Wts::I(w.clone()) },
+            Case::Kk { parts: 3, w: w.clone() },
+            Case::Ckk { tol: 0.5, w: w.clone() },
+        ];
+        for c in cases {
+            ctx.count("malformed_len");
+            let op = c.format(&one, Some(m));
+            run_op(ctx, &op);
+        }
+        let ho = if dim == 2 { 33 } else { 22 } + ctx.rng.usize(8) as u32;
+        ctx.count("malformed_order");
+        emit(ctx, &Case::Hilbert { dim, parts: 2, order: ho, pts: pts.clone(), w: as_f(&w) }, &one);
+        let zo = if dim == 2 { 65 } else { 43 } + ctx.rng.usize(8) as u32;
+        ctx.count("malformed_order");
+        emit(ctx, &Case::ZCurve { dim, parts: 2, order: zo, pts, }, &one);
+    }
 }
